@@ -6,6 +6,7 @@ import (
 	"fmt"
 	"sort"
 	"strings"
+	"time"
 )
 
 // bstr encodes a Go byte string as a JSON-safe string whose code points are the byte values.
@@ -171,32 +172,39 @@ func deepCopyJSON(v any) any {
 	return out
 }
 
-// shrinkJSON tries to make `in` smaller while `bad` stays true: removes array elements (from
-// the deepest arrays first), then object members named in `optionalKeys`. Budgeted.
+// shrinkJSON tries to make `in` smaller while `bad` stays true: removes array elements (whole chunks first -
+// halves, quarters, ... - then single elements, deepest arrays first). Budgeted by the number of trials and by
+// wall-clock time (a large failing case must not hold a check up for minutes).
 func shrinkJSON(in any, bad func(any) bool, budget int) any {
 	cur := deepCopyJSON(in)
+	deadline := time.Now().Add(90 * time.Second)
 	changed := true
-	for changed && budget > 0 {
+	for changed && budget > 0 && time.Now().Before(deadline) {
 		changed = false
 		paths := arrayPaths(cur, nil)
 		for _, p := range paths {
-			if len(p) > 0 && (p[0].key == "floats" || p[0].key == "zones" || p[0].key == "orders") {
+			if len(p) > 0 && (p[0].key == "floats" || p[0].key == "zones" || p[0].key == "zoneTable" || p[0].key == "orders") {
 				continue // derived parts of a case (what the library calls return for its cells, entity orders): not shrunk
 			}
-			arr := getPath(cur, p).([]any)
-			for i := len(arr) - 1; i >= 0 && budget > 0; i-- {
-				arr = getPath(cur, p).([]any)
-				if i >= len(arr) {
-					continue
-				}
-				cand := deepCopyJSON(cur)
-				a := getPath(cand, p).([]any)
-				na := append(append([]any{}, a[:i]...), a[i+1:]...)
-				setPath(&cand, p, na)
-				budget--
-				if bad(cand) {
-					cur = cand
-					changed = true
+			arr, ok := getPath(cur, p).([]any)
+			if !ok {
+				continue
+			}
+			for chunk := len(arr) / 2; chunk >= 1; chunk /= 2 {
+				for i := len(arr) - chunk; i >= 0 && budget > 0 && time.Now().Before(deadline); i -= chunk {
+					arr, ok = getPath(cur, p).([]any)
+					if !ok || i+chunk > len(arr) {
+						continue
+					}
+					cand := deepCopyJSON(cur)
+					a := getPath(cand, p).([]any)
+					na := append(append([]any{}, a[:i]...), a[i+chunk:]...)
+					setPath(&cand, p, na)
+					budget--
+					if bad(cand) {
+						cur = cand
+						changed = true
+					}
 				}
 			}
 		}
